@@ -111,15 +111,19 @@ KIND_FLAGS = {
 }
 
 
-def _prune_builds(keep=6):
+def _prune_builds(keep=24, max_age_s=3 * 3600):
+    """Remove old build directories: never one used in the last 3 hours (it
+    may belong to a concurrently running check), and keep the newest `keep`."""
     try:
         ds = [os.path.join(BUILD, d) for d in os.listdir(BUILD)]
     except FileNotFoundError:
         return
     ds = [d for d in ds if os.path.isdir(d)]
     ds.sort(key=lambda d: os.path.getmtime(d), reverse=True)
+    now = time.time()
     for d in ds[keep:]:
-        shutil.rmtree(d, ignore_errors=True)
+        if now - os.path.getmtime(d) > max_age_s:
+            shutil.rmtree(d, ignore_errors=True)
 
 
 def build_lib(kind="plain", defines=(), srcs=None):
